@@ -23,7 +23,12 @@ def incremental(pid, tier, replay):
     fams = _fams(
         [dict(fam="inc", K=6, CH=4), dict(fam="inc2", K=4, CH=4), dict(fam="partial", K=4, CH=4), dict(fam="rand", K=12, CH=4), dict(fam="editrun", K=2, CH=2), dict(fam="restat", K=16, CH=4)],
         [dict(fam="inc", K=30, CH=12), dict(fam="inc2", K=20, CH=8), dict(fam="partial", K=20, CH=8), dict(fam="rand", K=80, CH=6), dict(fam="editrun", K=10, CH=4), dict(fam="restat", K=120, CH=8)], tier)
-    return engine.engine_check(pid, fams, tier, maxruns=16 if tier == "quick" else 64)
+    q = tier == "quick"
+    design = None
+    if pid == "C03":
+        design = dict(K=1 if q else 3, consts={"MaxInv": 2 if q else 3, "MaxEnv": 1 if q else 2, "MaxClock": 40, "Js": "{1, 2}", "Ks": "{1}"},
+                      invariants=["NoStale", "Minimal", "SecondIsNoop"], timeout=70 if q else 2400, ngraphs=6 if q else None)
+    return engine.engine_check(pid, fams, tier, maxruns=16 if tier == "quick" else 64, design=design, impl=(pid == "C01"))
 
 
 @reg("C04")
@@ -32,7 +37,10 @@ def ordering(pid, tier, replay):
         return engine.engine_replay(pid, replay)
     fams = _fams([dict(fam="sched", K=8, CH=1), dict(fam="inc", K=3, CH=3), dict(fam="dyn", K=1, CH=3), dict(fam="pools", K=1, CH=1), dict(fam="restat", K=6, CH=3)],
                  [dict(fam="sched", K=81, CH=1), dict(fam="inc", K=30, CH=10), dict(fam="dyn", K=1, CH=30), dict(fam="pools", K=8, CH=1), dict(fam="rand", K=100, CH=4)], tier)
-    return engine.engine_check(pid, fams, tier, maxruns=64 if tier == "quick" else 2000)
+    q = tier == "quick"
+    design = dict(K=1 if q else 3, consts={"MaxInv": 1 if q else 2, "MaxEnv": 1, "MaxClock": 40, "Js": "{1, 2, 3}", "Ks": "{1, 0}"},
+                  invariants=["Ordered", "Limits"], timeout=60 if q else 2400, ngraphs=10 if q else None)
+    return engine.engine_check(pid, fams, tier, maxruns=64 if tier == "quick" else 2000, design=design)
 
 
 @reg("C05")
@@ -49,7 +57,10 @@ def failures(pid, tier, replay):
                 f["code"] = [143, 129, 255, 127, 2, 1, 126, 64][(n + f["s"]) % 8]
         return s
     h2 = dict(fams=[dict(fam="fail", K=2, CH=2, mut=codes)], limit=120 if tier == "quick" else 1500, maxruns=3)
-    return engine.engine_check(pid, fams, tier, maxruns=32 if tier == "quick" else 500, h2=h2)
+    q = tier == "quick"
+    design = dict(K=1 if q else 3, consts={"MaxInv": 1 if q else 2, "MaxEnv": 1, "MaxClock": 40, "Js": "{1, 2}", "Ks": "{1, 2, 0}"},
+                  invariants=["Contained", "Limits"], timeout=60 if q else 2400, ngraphs=8 if q else None)
+    return engine.engine_check(pid, fams, tier, maxruns=32 if tier == "quick" else 500, h2=h2, design=design)
 
 
 # ---------------------------------------------------------------------------
